@@ -701,7 +701,8 @@ def get_options(args=None, defaults=None):
 
     if options.unit:
         # XXX Argh.
-        options.layer = ['zope.testrunner.layer.UnitTests']
+        # a pattern, not a name: match the unit test layer only
+        options.layer = [r'^zope\.testrunner\.layer\.UnitTests$']
 
     options.layer = options.layer and {layer: 1 for layer in options.layer}
 
